@@ -139,7 +139,7 @@ def gen_shipped_v(shipped):
 
 def build_model():
     return C.build_mlref('pterm', 'Extract/ExtractPTerm.v', 'pterm_model', 'pterm_driver.ml', 'mlref_pterm',
-                         ['PTerm/Model.vo', 'PTerm/Compile.vo'])
+                         ['PTerm/Model.vo'])
 
 
 def setup():
@@ -262,7 +262,7 @@ def corpus_mods():
 
 def run(tier, seed):
     R = C.Report(CID, tier, seed)
-    n = 160 if tier == 'quick' else 3000
+    n = 160 if tier == 'quick' else 5000
     mismatches = []
 
     # 0. regenerate Gen/C02Shipped.v from the shipped modules (translator-style tie of the Examples)
